@@ -130,7 +130,9 @@ fn project_result(ctx: &Ctx, metric: Metric, res: &QRes, classes: &BTreeMap<u32,
             };
             // OrderedFloat's total order: NaN is the greatest value and equal to itself
             let le = |a: f32, b: f32| if a.is_nan() { b.is_nan() } else { b.is_nan() || a <= b };
-            let ord = v.windows(2).all(|w| le(key(w[0].1), key(w[1].1)));
+            // only among results for which the oracle makes a claim (finite, outside the overflow zone)
+            let claimed: Vec<f32> = v.iter().filter(|(id, _)| classes.get(id).map_or(false, |c| c.0 > 0)).map(|(_, d)| *d).collect();
+            let ord = claimed.windows(2).all(|w| le(key(w[0]), key(w[1])));
             json!({"c":"Ok","ids":ids,"cls":cls,"dok":dok,"ord":ord})
         }
     }
@@ -240,7 +242,7 @@ pub fn search_event(ctx: &mut Ctx, rtxn: &RoTxn, db: RawDb, idx: u16, metric: Me
                     let mult: u128 = over.unwrap_or(dov) as u128;
                     let budget = (base * mult).min(usize::MAX as u128);
                     chain.push(json!({
-                        "sk": sk.map(|k| cap(k as u128)), "budget": cap(budget),
+                        "sk": sk.map(|k| cap(k as u128)).unwrap_or(0), "budget": cap(budget),
                         "res": project_result(ctx, metric, &r, &classes),
                     }));
                     raw.push(r);
@@ -250,9 +252,9 @@ pub fn search_event(ctx: &mut Ctx, rtxn: &RoTxn, db: RawDb, idx: u16, metric: Me
                 let dflt_same = if prod >= 1 {
                     let o = QOpts { count, search_k: Some(prod), over };
                     let r = run_query(rtxn, db, idx, metric, *by_item, qv, &o, filter.as_ref());
-                    Value::Bool(same_result(&r, &raw[0]))
+                    json!(same_result(&r, &raw[0]) as i64)
                 } else {
-                    Value::Null
+                    json!(2)
                 };
                 // by_item(id) == by_vector(vector(id))
                 let byitem_eq = if let Some(id) = by_item {
@@ -260,20 +262,20 @@ pub fn search_event(ctx: &mut Ctx, rtxn: &RoTxn, db: RawDb, idx: u16, metric: Me
                     let o = QOpts { count, search_k: Some(usize::MAX), over };
                     let a = run_query(rtxn, db, idx, metric, *by_item, qv, &o, filter.as_ref());
                     let b = run_query(rtxn, db, idx, metric, None, qv, &o, filter.as_ref());
-                    Value::Bool(same_result(&a, &b))
+                    json!(same_result(&a, &b) as i64)
                 } else {
-                    Value::Null
+                    json!(2)
                 };
                 chains.push(json!({
-                    "count": cname.map(|s| json!(s)).unwrap_or(json!(count as i64)),
+                    "count": cname.map(|s| s.to_string()).unwrap_or(count.to_string()),
                     "count_eff": count.min(pop.len()) as i64,
-                    "over": over.map(|k| cap(k as u128)),
+                    "over": over.map(|k| cap(k as u128)).unwrap_or(0),
                     "chain": chain, "dflt_same": dflt_same, "byitem_eq": byitem_eq,
                 }));
             }
             groups.push(json!({"filter": fname, "pop": popj, "chains": chains}));
         }
-        qout.push(json!({"kind": if by_item.is_some() {"item"} else {"vec"}, "qid": by_item.map(|i| ctx.rank(i)), "groups": groups}));
+        qout.push(json!({"kind": if by_item.is_some() {"item"} else {"vec"}, "qid": by_item.map(|i| ctx.rank(i)).unwrap_or(0), "groups": groups}));
     }
 
     // unknown id => None
@@ -306,6 +308,9 @@ pub fn search_event(ctx: &mut Ctx, rtxn: &RoTxn, db: RawDb, idx: u16, metric: Me
             Ok(Some(l)) => l.iter().any(|(i, _)| i == id),
             _ => false,
         };
+        if std::env::var("VERIF_DEBUG").is_ok() {
+            eprintln!("self-lookup id={id} found={found} res={r:?}");
+        }
         selfl.push(json!([ctx.rank(*id), found]));
     }
 
